@@ -80,9 +80,6 @@ func runHostileMode() {
 		root := roots[i%2]
 		o := genOpts(r)
 		o.zstd = (i/2)%2 == 1
-		if !o.zstd {
-			o.flags &^= pkg.RestartCompression
-		}
 		cfg := &recgen.Cfg{NoBigLens: i%3 != 0, MaxCalls: 20, NoFrozen: r.Bool(), DictResets: o.dictSize != 0 || o.flags&pkg.RestartDictionaries != 0}
 		_, res := generate(r, root, o, cfg, genParams{writes: 2 + r.Intn(10), maxMut: 3, flushProb: 3})
 		if res.werr != "" || len(res.stream) > 20000 {
